@@ -28,4 +28,13 @@ theorem mhtail_current (x : Src) (hx : x ∈ Gen.MhTail.all) (s : St) (h0 : s.lo
   rw [h]
   exact canon_tail _ s h0 hp hc hf
 
+/-- **source → definition**: the bytes every tail function of the current tree feeds to the block function are the
+    bytes of the partial block followed by the multi-hash definition's padding (`MultiHash.mhPad n = mdPad 1024 8 true n`)
+    of a stream of `n < 2^32` bytes -/
+theorem mhtail_is_standard (x : Src) (hx : x ∈ Gen.MhTail.all) (s : St) (h0 : s.locs 0 < 2^32) (hp : s.part.length = 2048)
+    (hc : s.calls = []) (hf : s.final = none) :
+    ∃ blocks, (run x.prog s).res = some (blocks, some (outerBytes x.fn)) ∧
+      blocks.flatten = s.part.take (s.locs 0 % 1024) ++ mdPad 1024 8 true (s.locs 0) :=
+  ⟨_, mhtail_current x hx s h0 hp hc hf, tailBlocks_is_standard _ _ hp⟩
+
 end IsalVerif.GenProps.MhTail
